@@ -981,6 +981,14 @@ func checkCase(c Case, o *vt.Obs) error {
 				if f == "goto" && strings.Contains(prs[i].rejected, "goto statement is not supported") {
 					expected = true
 				}
+				// a type switch needs run-time type information the VM does not keep (all integer types are one Integer);
+				// a method value is a closure over its receiver (closures are documented as unsupported)
+				if f == "type-switch" && strings.Contains(prs[i].rejected, "type switch") {
+					expected = true
+				}
+				if f == "method-value" && strings.Contains(prs[i].rejected, "method value") {
+					expected = true
+				}
 			}
 			if !expected {
 				// the generator stays inside the documented dialect: a program the Go toolchain builds must compile
